@@ -5,10 +5,11 @@ Import ListNotations.
 Local Open Scope nat_scope.
 
 Example C09_nonvacuous :
-  ends_line {| d_cmds := [W [100%Z]; NL; IN; W [112%Z]; NL; DE]; d_doc := false |} /\
-  fmt_text [{| d_cmds := [W [100%Z]; NL; IN; W [112%Z]; NL; DE]; d_doc := false |}] = [100; 10; 32; 32; 32; 32; 112; 10; 10]%Z /\
+  ends_line {| d_cmds := [W [100%Z]; NL; IN; W [112%Z]; NL; NL; DE]; d_doc := false |} /\
+  raw_text [{| d_cmds := [W [100%Z]; NL; IN; W [112%Z]; NL; NL; DE]; d_doc := false |}] = [100; 10; 32; 32; 32; 32; 112; 10; 10]%Z /\
+  fmt_text [{| d_cmds := [W [100%Z]; NL; IN; W [112%Z]; NL; NL; DE]; d_doc := false |}] = [100; 10; 32; 32; 32; 32; 112; 10]%Z /\
   exit_code (format_files {| check := true; diff := false |} [Same; Changed]) = 1%Z.
-Proof. split; [exists [W [100%Z]; NL; IN; W [112%Z]], [DE]; split; [reflexivity|repeat constructor]|]. split; reflexivity. Qed.
+Proof. split; [exists [W [100%Z]; NL; IN; W [112%Z]; NL], [DE]; split; [reflexivity|repeat constructor]|]. repeat split; reflexivity. Qed.
 
 (* T1  fmt (fmt x) = fmt x at the token level, for every ladder-well-formed expression
        (integral floats included: the first pass turns them into ints, the second pass changes nothing) *)
@@ -18,20 +19,21 @@ Theorem C09_fmt_idempotent : forall e fuel,
 Proof. exact fmt_idempotent_tokens. Qed.
 Print Assumptions C09_fmt_idempotent.
 
-(* T2  every output of format_program for a non-empty program ends in TWO newlines ... *)
-Theorem C09_final_newlines_two : forall ds d0, (forall d, List.In d (d0 :: ds) -> ends_line d) ->
-  ends_with (fmt_text (d0 :: ds)) [10; 10]%Z.
-Proof. exact final_two_newlines. Qed.
-Print Assumptions C09_final_newlines_two.
+(* T2  every output for a non-empty program (some non-newline character) ends in EXACTLY ONE newline: every
+       declaration ends its last line, format_program adds nothing, Formatter::format trims the blank lines a
+       trailing `match` leaves.  (Before the repair the model proved "ends in two newlines" and refuted this.) *)
+Theorem C09_ends_with_one_newline : forall ds d0, (forall d, List.In d (d0 :: ds) -> ends_line d) ->
+  (exists c, List.In c (raw_text (d0 :: ds)) /\ c <> 10%Z) ->
+  ends_one (fmt_text (d0 :: ds)).
+Proof. exact final_one_newline. Qed.
+Print Assumptions C09_ends_with_one_newline.
 
-(* T3  ... so "ends in exactly one newline" is refuted by the smallest program *)
-Theorem C09_ends_with_one_newline_refuted : exists ds,
-  (forall d, List.In d ds -> ends_line d) /\ ds <> [] /\ ends_with (fmt_text ds) [10; 10]%Z.
-Proof.
-  exists [{| d_cmds := [W [112%Z]; NL]; d_doc := false |}]. split; [|split; [discriminate|exists [112%Z]; reflexivity]].
-  intros d [<-|[]]. exists [W [112%Z]], []. split; [reflexivity|constructor].
-Qed.
-Print Assumptions C09_ends_with_one_newline_refuted.
+(* T3  regression witness: the smallest program, and one whose last statement is a `match` (two raw newlines) *)
+Theorem C09_one_newline_witness :
+  fmt_text [{| d_cmds := [W [112%Z]; NL]; d_doc := false |}] = [112; 10]%Z /\
+  fmt_text [{| d_cmds := [W [112%Z]; NL; NL]; d_doc := false |}] = [112; 10]%Z.
+Proof. split; reflexivity. Qed.
+Print Assumptions C09_one_newline_witness.
 
 (* T4  --check and --diff never write; plain fmt writes exactly the changed files *)
 Theorem C09_check_mode_readonly : forall d fs, forallb negb (writes (format_files {| check := true; diff := d |} fs)) = true.
